@@ -18,8 +18,11 @@ import FluteModel.Prim
   * `Arc<FileDesc>` sharing is a store of descriptors addressed by key (TOI for objects, publication
     index for FDT instances); u32/u64 counters (`transfer_count`, `total_nb_transfer`) and
     `SystemTime::checked_add` are unbounded `Nat`; only buffer sources (`BlockEncoder::new` cannot fail).
-  * Rust panics: `State.panic` is set (and the driver reports `PANIC`); the state after a panic is
-    meaningless (in Rust the `RwLock`s are poisoned).
+  * Rust panics: `State.panic` would be set (and the driver reports `PANIC`).  After the repairs of D4
+    (`div_f64(0.0)` for an empty object with a target acquisition) and of the `fdtid + 1` overflow
+    (`fdt_start_id = u32::MAX`; now `wrapping_add(1) & 0xFFFFF` = `(fdtid + 1) % 2^20`) no transition of the
+    model sets it any more: the scheduler's remaining arithmetic is `checked_add`, `unwrap_or_default`,
+    guarded `Duration` subtractions and counter increments (see above).
 -/
 namespace Flute.Sched
 
@@ -269,7 +272,6 @@ def publish (s : State) (now : Nat) : State :=
     fdts := s.fdts ++ [fd]
     fdtQueue := s.fdtQueue ++ [k]
     fdtid := (s.fdtid + 1) % 1048576
-    panic := if s.fdtid + 1 ≥ 4294967296 then (s.panic <|> some "fdtid add overflow") else s.panic
     lastPublish := some now
     objs := s.objs.map (fun f => if s.files.contains f.key then { f with published := true } else f)
     log := Ev.pub now k content :: s.log }
